@@ -92,8 +92,11 @@ def run_scenario(scn, prop, tier):
         ref = exsim._execute(exsim.Ctx(scn, "C03", light=True))
         res.stats["executions"] += 1
         if ref.final != ctx.final:
-            raise RuntimeError("observed and unobserved executions of the same scenario differ: the observers "
-                               "perturb the run\n" + _describe_diff(ref.final, ctx.final))
+            # the two executions differ only in how often read-only queries (get_balances, get_orders, get_open_orders,
+            # get_loans) are issued between the strategy's own calls; on a correct tree they never differ
+            res.viol(PROP, "observation-dependent", "observation-dependent",
+                     f"same scenario, same max_concurrent={scn['maxc']}: polling the exchange's read-only queries more often "
+                     f"changes the result: {_describe_diff(ref.final, ctx.final)}")
         res.probes["differential_executed"] += 1
         salts = [scn["salt"], scn["salt"] + 17, scn["salt"] + 101]
         k = 0
